@@ -6,11 +6,11 @@ toolchain go1.23.5
 
 require (
 	github.com/acekingke/yaccgo v0.0.0-00010101000000-000000000000
+	github.com/awalterschulze/gographviz v2.0.3+incompatible
 	golang.org/x/tools v0.29.0
 )
 
 require (
-	github.com/awalterschulze/gographviz v2.0.3+incompatible // indirect
 	golang.org/x/mod v0.22.0 // indirect
 	golang.org/x/sync v0.10.0 // indirect
 )
